@@ -10,6 +10,8 @@ import "github.com/bradenaw/juniper/iterator"
 //verif:case C19 thorough VerifMergeSlices 3 0..3 0..2
 //verif:case C19 quick VerifMinK 0..4
 //verif:case C19 thorough VerifMinK 5
+//verif:case C19 quick VerifSortWrappers 0..4
+//verif:case C19 thorough VerifSortWrappers 5
 
 // a coarse order with ties: compare v>>1 only
 func vCoarse(a, b int) bool { return a>>1 < b>>1 }
@@ -145,4 +147,50 @@ func VerifMinK(n int) {
 		vAssert(vImplies(vAnd(cs > 0, vCoarse(v, mx)), co == cs), "mink/all-smaller-kept")
 	}
 	vCover("mink")
+}
+
+// VerifSortWrappers: Slice, SliceStable and SliceIsSorted hand the caller's order to package sort
+// unchanged. On n symbolic items under a coarse (tie-heavy) order: SliceIsSorted is true exactly
+// when no element is less than its predecessor; after Slice / SliceStable the slice is sorted and
+// is a permutation of the input (each item has the same number of occurrences), and SliceStable
+// keeps the input order of equivalent items (items are tagged with their input position in the
+// low bit range, which the coarse order ignores).
+func VerifSortWrappers(n int) {
+	in := make([]int, n)
+	for i := range in {
+		v := vNondetInt("x")
+		vAssume(vAnd(v >= 0, v < 4))
+		in[i] = v<<8 | i // order looks at bits >= 9 only: v>>1 classes; position tag below
+	}
+	less := func(a, b int) bool { return a>>9 < b>>9 }
+	want := true
+	for i := 1; i < n; i++ {
+		want = vAnd(want, !less(in[i], in[i-1]))
+	}
+	vAssert(SliceIsSorted(in, less) == want, "sliceissorted/iff-no-element-less-than-its-predecessor")
+	for variant := 0; variant < 2; variant++ {
+		x := append([]int(nil), in...)
+		if variant == 0 {
+			Slice(x, less)
+		} else {
+			SliceStable(x, less)
+		}
+		for i := 1; i < n; i++ {
+			vAssert(!less(x[i], x[i-1]), "sort/result-is-sorted")
+			if variant == 1 {
+				vAssert(vImplies(!less(x[i-1], x[i]), x[i-1]&0xff < x[i]&0xff), "slicestable/equivalent-items-keep-their-input-order")
+			}
+		}
+		for i := range in {
+			cnt := 0
+			for j := range x {
+				if x[j] == in[i] {
+					cnt++
+				}
+			}
+			vAssert(cnt == 1, "sort/result-is-a-permutation-of-the-input")
+		}
+		vAssert(SliceIsSorted(x, less), "sliceissorted/true-after-sorting")
+	}
+	vCover("sort-wrappers")
 }
